@@ -121,6 +121,8 @@ def gate_table(rng):
     add(("hyperv.keytable-signature", [("bit", b) for b in range(16)]))
     # only a superseded generation of a key table (lower sequence number, listed behind the current one) has the wrong signature
     add(("hyperv.superseded-keytable-signature", [("bit", b) for b in range(16)]))
+    # an object table that is reached through a link pointing backwards in the file (and what only it lists) is validated too
+    add(("hyperv.backward-linked-objtable-signature", [("bit", b) for b in range(0, 32, 2)]))
     add(("envelope.magic", [("bit", b) for b in range(21 * 8)]))
     add(("envelope.version", version_values(rng, {2}, n_rand=8)))
     add(("envelope.aead-version", version_values(rng, {1}, n_rand=8)))
@@ -135,6 +137,10 @@ def gate_table(rng):
     add(("keysafe.mac", string_variants(["HMAC-SHA-1", "HMAC-SHA-256"])[:60]))
     add(("keysafe.cipher", string_variants(["AES-256", "AES-128"])[:60]))
     add(("keysafe.kdf", string_variants(["PBKDF2-HMAC-SHA-1"])[:60]))
+    # ... also when the unsupported pair is only the first of several and a later, supported pair would open with the passphrase
+    add(("keysafe.mac-first-of-several", string_variants(["HMAC-SHA-1", "HMAC-SHA-256"])[:12]))
+    add(("keysafe.cipher-first-of-several", string_variants(["AES-256", "AES-128"])[:12]))
+    add(("keysafe.kdf-first-of-several", string_variants(["PBKDF2-HMAC-SHA-1"])[:12]))
     add(("hdd.image-type", string_variants(["Plain", "Compressed"])))
     add(("hdd.missing-descriptor", [0]))
     # ... also when it is not the opened snapshot's own image but one of its ancestors' that has the unsupported type
@@ -380,6 +386,23 @@ def _apply(gate: str, value, control: bool, ctx, rng):
     if fam == "hyperv":
         from dissect.hypervisor.descriptor.hyperv import HyperVFile
 
+        if what == "backward-linked-objtable-signature":
+            from vf.writers import hyperv as whv
+
+            tree = {"configuration": {"i": whv.Val("int", -5), "s": whv.Val("string", "x"), "sub": {"deep": whv.Val("int", 7), "t": whv.Val("bool", 1)}}}
+            for _try in range(40):
+                raw_, meta_ = whv.build(rng, tree, ntables=3, stale_tables=0, free_prob=0.0, extra_object_tables=2, backward_chain=True)
+                raw = bytearray(raw_)
+                lo = meta_["extra_table_offsets"][0] if len(meta_["extra_table_offsets"]) >= 2 else None
+                # the low table must be listed in the high one only
+                listed_in_first = lo is not None and any(struct.unpack_from("<BIQIB", raw, 0x2008 + 18 * i)[2] == lo for i in range(struct.unpack_from("<I", raw, 0x2004)[0]))
+                if lo is not None and not listed_in_first:
+                    break
+            else:
+                raise RuntimeError("no backward-linked object table produced")
+            if not control:
+                _flip(raw, lo, value[1])
+            return call(lambda: HyperVFile(io.BytesIO(bytes(raw))).as_dict())
         if what == "superseded-keytable-signature":
             from vf.writers import hyperv as whv
 
@@ -467,6 +490,13 @@ def _apply(gate: str, value, control: bool, ctx, rng):
         data = wvx.seal(dk, b'a = "b"\n', mac, bytes(16))
         ident = "vmware:key"
         pair = wvx.pair_text(blob, p)
+        if what.endswith("-first-of-several"):
+            field = what.split("-")[0]
+            blob2, p2 = wvx.phrase_pair(rng, "pw", dk, cipher=cipher, mac=mac, kdf=kdf, rounds=2, salt=b"t" * 8, ident="second")
+            first = pair if control else wvx.pair_text(blob, dict(p, **{field: value}))
+            extra_ = [wvx.pair_text(blob2, p2)] * rng.choice([1, 2])
+            text = wvx.vmx_text(wvx.keysafe_text([first] + extra_, identifier=ident), data)
+            return call(lambda: VMX.parse(text).unlock_with_phrase("pw"))
         if not control:
             if what == "identifier":
                 ident = value
